@@ -57,8 +57,10 @@ package net
 //@   trusted
 //@   ensures err != nil
 
+// C19: a session's goroutines share one connection per endpoint; that is safe only because a message
+// is handed to the stream in a single Write (the same clause C10 relies on).
 //@ func (m *Message) Write(w io.Writer) (err error)
-//@   tags C01 C10
+//@   tags C01 C10 C19
 //@   requires w != nil
 //@   requires len(m.Payload) <= 4294967267
 //@   modifies w.len, w.writes, w.data, w.wfailed
@@ -68,8 +70,8 @@ package net
 //@   ensures err == nil ==> w.len == old(w.len) + 28 + len(m.Payload) && hdrenc(w.data, old(w.len), m.Header)
 //@   ensures err == nil ==> forall j int {w.data[j]} :: old(w.len) + 28 <= j && j < w.len ==> w.data[j] == m.Payload[j - old(w.len) - 28]
 //@   ensures w.accepting && len(m.Payload) == m.Header.Size ==> err == nil
-//@   ensures[C10] w.accepting && len(m.Payload) == m.Header.Size ==> w.writes == old(w.writes) + 1
-//@   ensures[C10] w.writes <= old(w.writes) + 1 || !w.accepting
+//@   ensures[C10,C19] w.accepting && len(m.Payload) == m.Header.Size ==> w.writes == old(w.writes) + 1
+//@   ensures[C10,C19] w.writes <= old(w.writes) + 1 || !w.accepting
 
 //@ func (m *Message) Read(r io.Reader) (err error)
 //@   tags C01 C07 C08
@@ -176,11 +178,11 @@ package net
 //@     invariant forall k int {e.handlers[k]} :: 0 <= k && k < len(e.handlers) ==> e.handlers[k] == at_lock(e.handlers[k])
 
 //@ func (e *endPoint) Send(m Message) (err error)
-//@   tags C10
+//@   tags C10 C19
 //@   requires e.stream != nil && len(m.Payload) <= 4294967267
 //@   modifies e.stream.len, e.stream.writes, e.stream.data, e.stream.wfailed
-//@   ensures[C10] e.stream.accepting && len(m.Payload) == m.Header.Size ==> err == nil && e.stream.writes == old(e.stream.writes) + 1
-//@   ensures[C10] e.stream.writes <= old(e.stream.writes) + 1 || !e.stream.accepting
+//@   ensures[C10,C19] e.stream.accepting && len(m.Payload) == m.Header.Size ==> err == nil && e.stream.writes == old(e.stream.writes) + 1
+//@   ensures[C10,C19] e.stream.writes <= old(e.stream.writes) + 1 || !e.stream.accepting
 
 // dispatch: messages are only offered to live (never closed) handlers of the table; a handler whose
 // filter returns keep == false is closed exactly once and leaves the table in the same critical section.
